@@ -72,6 +72,20 @@ class C09(Prop):
                 if j % 5 == 0:
                     yield {"k": "circuit", "items": sub, "n": n, "cfg": list(TCONFIGS[(j + cut) % len(TCONFIGS)]), "pkg": "torch"}
 
+        # wide registers: the N=3 programs relabelled onto qubits around index 64 (one machine word of qubit flags)
+        wide = [ids for ids, _ in self.progs if len(ids) == 3 and all(i <= 14 for i in ids)]
+        rng = self.rng
+        for t in range(30 if thorough else 10):
+            ids = rng.choice(wide)
+            n, inj = rng.choice(((66, [64, 65, 66]), (66, [2, 65, 66]), (65, [63, 64, 65]), (70, [1, 64, 66]), (70, [64, 65, 70]), (64, [62, 63, 64])))
+            # (ascending relabellings only: a gate's map acts on its qubits in ascending order -- the library's convention,
+            # cf. the two tables of CNOT -- so a relabelling that reverses the order would change the program's meaning)
+            items = [dict(self.alpha[i], qs=[inj[q - 1] for q in self.alpha[i]["qs"]]) for i in ids]
+            for cfg in (("CliffordCircuit", "circuit", "orig"), (("Circuit", "CliffordCircuit")[t % 2], ("plain", "layers")[(t // 2) % 2], ("orig", "orig", "copy")[t % 3])):
+                if cfg[0] == "Circuit" and cfg[2] != "orig":
+                    cfg = ("Circuit", cfg[1], "orig")
+                yield {"k": "circuit", "items": items, "n": n, "cfg": list(cfg), "pkg": "py", "wide": True}
+
     def execute(self, scn, be):
         n = scn.get("n", 3)
         items = scn["items"] if "items" in scn else [self.alpha[i] for i in scn["ids"]]
@@ -127,7 +141,50 @@ class C09(Prop):
             rec["exc"] = _exc(e)
             import traceback
             rec["where"] = traceback.format_exc().strip().splitlines()[-3][:120]
-        return [rec]
+            return [rec]
+        out = [rec]
+        # the same (already used, uncompiled) circuit after its rotation gates were given new generators -- by plain
+        # attribute assignment, as the library's own constructors do, or by set_generator: it is then the new program
+        if mode == "plain" and variant == "orig" and any(it["k"] == "gen" for it in items):
+            items2 = []
+            rec2 = {"op": "circuit", "n": n, "cls": cls, "mode": mode, "variant": "regen", "probes": []}
+            try:
+                for j, (it, g) in enumerate(zip(items, gates)):
+                    if it["k"] == "gen":
+                        it2 = dict(it)
+                        it2["g"] = it["g"][:-1] + [(it["g"][-1] + 2) % 4]
+                        items2.append(it2)
+                        w = be.p_pauli(g.generator)          # (condensed to the gate's own qubits by some constructors)
+                        newg = be.pauli(w[:-1] + [(w[-1] + 2) % 4])
+                        if j % 2 == 0:
+                            g.generator = newg
+                        else:
+                            g.set_generator(newg)
+                    else:
+                        items2.append(it)
+                rec2["prog"] = [circ.wire_item(it) for it in items2]
+                gens, lst, st = probes_for(n)
+                for kind, ins in (("list", lst), ("state", st)):
+                    pr = {"kind": kind, "ins": ins}
+                    mk = (lambda: be.plist(ins)) if kind == "list" else (lambda: be.state(ins, 1))
+                    if kind == "state":
+                        pr["r0"] = 1
+                    x = mk()
+                    c.forward(x)
+                    pr["fwd"] = be.p_list(x)
+                    c.backward(x)
+                    pr["back"] = be.p_list(x)
+                    y = mk()
+                    c.backward(y)
+                    pr["bwd"] = be.p_list(y)
+                    c.forward(y)
+                    pr["forth"] = be.p_list(y)
+                    rec2["probes"].append(pr)
+            except Exception as e:
+                rec2["exc"] = _exc(e)
+                rec2.setdefault("prog", rec["prog"])
+            out.append(rec2)
+        return out
 
 
 PROP = C09
